@@ -143,6 +143,11 @@ func (c *Ctx) Violate(key, what string, files map[string]string) {
 		return
 	}
 	n := len(c.violations)
+	if n >= 25 {
+		// Enough witnesses saved; keep counting.
+		c.violations = append(c.violations, Violation{Key: key, What: what})
+		return
+	}
 	dir := filepath.Join(verifRoot, "replays", c.ID, fmt.Sprintf("%s-s%d-%03d", c.Tier, c.Seed, n))
 	os.RemoveAll(dir)
 	os.MkdirAll(dir, 0o755)
